@@ -110,6 +110,23 @@ def run(chk):
         if not ok:
             chk.disagree(construct, {"src": cmd["src"]}, exp, r, what)
     chk.traces += len(cases)
+
+    # ---- std.slice: its definition is the slice denotation of Arrays.tla (every start / end / step over the base arrays)
+    from render import arr_term
+    ar = common.run_tlc("Arrays", "MC_Arrays_d1full.cfg", workers=6, timeout=3000, xmx="10g")
+    chk.add_tlc(ar, "Arrays[d1full]: Den of every slice term (the definition of std.slice)")
+    scmds, smeta = [], []
+    for x in ar.replay:
+        t = x["term"]
+        if t.get("op") != "slice" or x.get("fam") == "arrays.long":
+            continue
+        scmds.append({"cmd": "eval", "id": len(scmds), "src": arr_term(t, 1)})        # style 1 = the std.slice spelling
+        smeta.append([tla_to_py(v) for v in x["den"]])
+    for cmd, r, exp in zip(scmds, run_cmds(scmds), smeta):
+        chk.count(cmd["src"])
+        if not (r["k"] == "val" and common.json_equal(json.loads(r["out"]), exp)):
+            chk.disagree(f"c10:slice:{cmd['src']}", {"src": cmd["src"]}, exp, r, "std.slice differs from the slice denotation")
+    chk.extra["slice_calls"] = len(scmds)
     chk.extra["undecided_calls"] = undecided
     for i in (10, len(cases) // 2):
         chk.sample({"call": sources(cases[i]["c"])[0], "model": cases[i]["res"]})
